@@ -46,8 +46,10 @@ CLAIM = dict(
     "returned dofs only), aux_pressure_reshape, aux_distance_is_integral_of_density (value statements); nan_not_converged and "
     "aux_weighted_flux are definitional unfoldings. TIED BY CORRESPONDENCE: fault injection at nine program points of the real solvers "
     "(converged, number_iterations, distance tag, returned iterate vs the model on the reconstructed event sequence); the real "
-    "AndersonAcceleration on dyadic vectors with a stubbed lstsq vs the model (exact); __call__ outputs with a stubbed _solve vs "
-    "callOut (exact / 64 eps); generated program points and as-found witnesses through the driver. ORACLE per run: mass balance to "
+    "AndersonAcceleration on dyadic vectors with a stubbed lstsq vs the model (exact) and, with the real lstsq, every depth / restart, "
+    "the affine-constraint oracle over runs longer than the restart; __call__ outputs with a stubbed _solve vs "
+    "callOut (exact / 64 eps; the integration rule of CONSTANT_SUBCELL / CELL_PROJECTION is the model's own - corner mean / centre - "
+    "not read back from the code); generated program points and as-found witnesses through the driver. ORACLE per run: mass balance to "
     "linear-solver precision, distance == l1_dissipation(returned flux), aux outputs, pinned pressure, converged => criteria met (distance "
     "increments recomputed from the reported distances; Newton residual || rhs - J(x) x || and flux increment, Bregman mass residual "
     "recomputed from the iterates captured by pass-through wrappers of jacobian / l1_dissipation; only Bregman's aux/force increment is "
@@ -302,6 +304,29 @@ def masses(cfg, rng_np):
         hi = tuple(slice(s - max(1, s // 2), s) for s in shape)
         m1[lo] = rng_np.uniform(0.5, 1.0, size=m1[lo].shape)
         m2[hi] = rng_np.uniform(0.5, 1.0, size=m2[hi].shape)
+    elif cfg.masses == "centre-zero" and sum(1 for n in shape if n > 1) == 1 and max(shape) >= 4:
+        # quasi-1-D grid: the mass-conserving flux is unique (prefix sums). Masses are derived from a random dyadic face flux with
+        # two opposite neighbouring entries, so that the flux reconstructed at one cell CENTRE vanishes while no face flux does
+        n = max(shape)
+        uf = np.array([rng_np.integers(1, 9) / 8.0 * rng_np.choice([-1.0, 1.0]) for _ in range(n - 1)])
+        j = int(rng_np.integers(0, n - 2))
+        uf[j + 1] = -uf[j]
+        fdiff = np.diff(np.concatenate([[0.0], uf, [0.0]]))  # net outflow per cell
+        m1 = (np.maximum(-fdiff, 0) + 0.25).reshape(shape)
+        m2 = (np.maximum(fdiff, 0) + 0.25).reshape(shape)
+        return m1, m2
+    elif cfg.masses in ("dipole", "centre-zero"):
+        # mass difference (-1, +2, -1) along the first axis with more than two cells: the two face fluxes around the middle cell
+        # are opposite, so the flux reconstructed at that cell's centre vanishes although no face flux does
+        m1 = np.full(shape, 0.5)
+        m2 = np.full(shape, 0.5)
+        ax = next((a for a, n in enumerate(shape) if n >= 3), None)
+        if ax is not None:
+            sl = [slice(None)] * len(shape)
+            for pos, (a1, a2) in enumerate(((1.0, 0.0), (0.0, 2.0), (1.0, 0.0))):
+                sl[ax] = pos
+                m1[tuple(sl)] += a1
+                m2[tuple(sl)] += a2
     else:  # single cell
         m1, m2 = np.zeros(shape), np.zeros(shape)
         m1[tuple(0 for _ in shape)] = 1.0
@@ -335,7 +360,7 @@ def build(d, cfg, num_iter=None):
         weight = d.Image(rng_np.uniform(0.5, 2.0, size=shape), space_dim=dim, dimensions=dims, scalar=True)
     opts = dict(
         return_info=True, num_iter=cfg.num_iter if num_iter is None else num_iter, formulation=cfg.formulation, linear_solver=cfg.solver,
-        l1_mode=getattr(W.L1Mode, cfg.l1), mobility_mode=getattr(W.MobilityMode, cfg.mobility), aa_depth=cfg.aa,
+        l1_mode=getattr(W.L1Mode, cfg.l1), mobility_mode=getattr(W.MobilityMode, cfg.mobility), aa_depth=cfg.aa, aa_restart=cfg.aa_restart,
         tol_residual=tols(cfg)[0], tol_increment=tols(cfg)[1], tol_distance=tols(cfg)[2],
         L=cfg.L,
     )
@@ -519,6 +544,9 @@ def recomputed(cfg, cap):
             J = call(cap["jacobian"], x)
             if isinstance(J, Raised):
                 break
+            dg = np.abs(np.asarray(J.diagonal()[:nf], dtype=float))
+            if nf and float(dg.min()) > 0 and float(dg.max() / dg.min()) > 1e10:
+                out["degenerate"] = True  # weights up to 1/regularisation: J x is dominated by rounding, recomputation meaningless
             out["residual"].append(float(np.linalg.norm(rhs - J @ x)))
             if j + 1 < len(fluxes):
                 out["flux_increment"].append(float(np.linalg.norm(fluxes[j + 1] - x[:nf])))
@@ -544,6 +572,8 @@ def criteria_met_at(cfg, hist, i, rc=None):
             # ones (a stored value that does not belong to the iterates makes the criteria count as not met)
             h2 = dict(hist)
             for key in ("residual", "flux_increment", "mass_conservation_residual"):
+                if rc and rc.get("degenerate") and key == "residual":
+                    continue  # degenerate mobility: the stored residual is used (see findings: degenerate-mobility)
                 if rc and len(rc.get(key, [])) > i and key in hist and len(hist[key]) > i:
                     mine, theirs = np.array(rc[key][: i + 1]), np.array(hist[key][: i + 1], dtype=float)
                     ok_ = np.all(np.abs(mine[[0, i]] - theirs[[0, i]]) <= 1e-7 * np.maximum(np.abs(mine[[0, i]]), 1e-300) + 1e-13)
@@ -574,7 +604,8 @@ def events_of(cfg, cap, fault, num_iter):
         n_done = fault[1] if cap["warned"] else n_done
     br = lambda i: 0 if cfg.method == "newton" else (0 if is_update_pass(cfg, i) else 1)
     rc = recomputed(cfg, cap) if "w" in cap else None
-    cap["recomputed_lengths"] = {k: len(v) for k, v in (rc or {}).items()}
+    cap["recomputed_lengths"] = {k: len(v) for k, v in (rc or {}).items() if isinstance(v, list)}
+    cap["degenerate_iterates"] = bool(rc and rc.get("degenerate"))
     ev = [("ok1" if criteria_met_at(cfg, hist, i, rc) else "ok0") + f":{br(i)}" for i in range(n_done)]
     broke = n_done > 0 and n_done - 1 > 1 and ev[-1].startswith("ok1")
     if not broke and n_done < num_iter:
@@ -617,7 +648,21 @@ def check_run(ctx, d, cfg, cap, fault, num_iter, label):
     iterative = cfg.solver in ("amg", "cg")
     # direct back-ends: backward-stable solve of a system whose unknowns and data have magnitude `scale`
     # (|D||u| + |f|, plus the masses the source is the difference of); iterative: configured rtol 1e-10 x ||f||, margin 100
-    tol = 1e4 * EPS * max(scale + cap.get("mass_scale", 0.0), 1e-300) * max(nf + nc, 1) + (1e-8 * float(np.linalg.norm(f)) if iterative else 0.0)
+    # mobility weights of the returned flux (what the next / last linear system is weighted with): when a cell-centre flux
+    # vanishes they reach 1/regularisation and the Schur complement D W^-1 D^T is numerically singular ("degenerate mobility").
+    # The LU solve is then still backward stable, but relative to |D| W^-1 |D^T| |p| with a huge pressure in the decoupled
+    # cells: that term is part of the linear-solver precision of the direct back-end.
+    fw = call(lambda: w._compute_face_weight(u)[0]) if nf else np.ones(0)
+    degenerate, sp_term = False, 0.0
+    if not isinstance(fw, Raised) and nf and np.all(np.isfinite(fw)) and float(np.min(np.abs(fw))) > 0:
+        Wd = np.abs(np.asarray(fw, dtype=float)) * np.abs(np.asarray(w.mass_matrix_faces.diagonal(), dtype=float))
+        degenerate = float(Wd.max() / Wd.min()) > 1e10
+        pabs = np.abs(cap["solution"][nf:nf + nc])
+        pabs = np.where(np.isfinite(pabs), pabs, 0.0)
+        aD = abs(w.div)
+        sp_term = float((aD @ ((aD.T @ pabs) / Wd)).max())
+    tol = 1e4 * EPS * max(scale + cap.get("mass_scale", 0.0) + (2 * sp_term if not iterative else 0.0), 1e-300) * max(nf + nc, 1) \
+        + (1e-8 * float(np.linalg.norm(f)) if iterative else 0.0)
     if err <= tol:
         ctx.cov["max_balance_err_over_tol"] = max(ctx.cov.get("max_balance_err_over_tol", 0.0), err / tol)
     else:
@@ -629,7 +674,8 @@ def check_run(ctx, d, cfg, cap, fault, num_iter, label):
         # input class in the signature: Anderson off / on / on with a numerically rank-deficient least-squares problem (the
         # recorded finding is only the last one), and full vs. reduced formulation
         aa_cls = "off" if not cfg.aa else ("degenerate-lstsq" if cap.get("aa_degenerate") else "on")
-        ctx.fail(f"{sig0}:mass-balance:anderson={aa_cls}:{'full' if cfg.formulation == 'full' else 'reduced'}-formulation",
+        deg = f":degenerate-mobility:{cfg.solver}" if (degenerate or cap.get("degenerate_iterates")) else ""
+        ctx.fail(f"{sig0}:mass-balance:anderson={aa_cls}:{'full' if cfg.formulation == 'full' else 'reduced'}-formulation{deg}",
                  f"returned flux violates the discrete mass balance: |D u - f|_inf = {err:.3e} > {tol:.3e} ({label})", rp)
     # (2) reported distance is the cost of exactly the returned flux
     cost = call(cap.get("cost", w.l1_dissipation), u)
@@ -671,6 +717,10 @@ def check_run(ctx, d, cfg, cap, fault, num_iter, label):
         elif cfg.method != "newton" and cfg.aa and cap.get("aa_degenerate") and not cap.get("pp_failed"):
             ctx.fail(f"C04:{cfg.method}._solve:pressure-non-finite:anderson=degenerate-lstsq:{cfg.solver}",
                      f"the returned pressure has non-finite entries ({int(p.size - finite_p.size)} of {p.size}; {label})", rp)
+        elif cap.get("degenerate_iterates") and cfg.solver in ("amg", "cg"):
+            ctx.fail(f"C04:{cfg.method}._solve:pressure-non-finite:degenerate-mobility:{cfg.solver}",
+                     f"the returned pressure has non-finite entries ({int(p.size - finite_p.size)} of {p.size}) after an iterative solve of a "
+                     f"numerically singular (degenerate mobility) system ({label})", rp)
         else:
             ctx.fail(f"C04:{cfg.method}._solve:pressure-non-finite",
                      f"the returned pressure has non-finite entries ({int(p.size - finite_p.size)} of {p.size}) outside the documented "
@@ -737,7 +787,7 @@ def explore(ctx, d, cfg, lines, impl):
         # propagates as an exception, which is honest and not what the property quantifies over)
         if fault is not None and (clean_passes is None or fault[1] >= clean_passes or injection(cfg, *fault) is None):
             continue
-        label = f"{cfg.method} {tuple(cfg.shape)} {cfg.masses} {cfg.formulation}/{cfg.solver} {cfg.l1}/{cfg.mobility} aa={cfg.aa} fault={fault}"
+        label = f"{cfg.method} {tuple(cfg.shape)} {cfg.masses} {cfg.formulation}/{cfg.solver} {cfg.l1}/{cfg.mobility} aa={cfg.aa}{'/r' + str(cfg.aa_restart) if cfg.aa_restart else ''} fault={fault}"
         cap = run_solver(d, cfg, fault)
         ctx.cov["solver_runs"] += 1
         ctx.count(("run", cfg.key(), fault), nontrivial=int(np.prod(cfg.shape)) > 1)
@@ -791,9 +841,10 @@ def configs(ctx):
         dim = len(shape)
         method = methods[i % 3]
         cfg = Config(
-            shape=list(shape), voxel=[2.0 ** rng.randint(-2, 0) for _ in range(dim)], masses=["dense", "compact", "single"][(i // 3) % 3],
+            shape=list(shape), voxel=[2.0 ** rng.randint(-2, 0) for _ in range(dim)], masses=["dense", "compact", "single", "dipole", "centre-zero"][(i // 3) % 5],
             method=method, l1=l1s[(i // 2) % 3], mobility=mobs[i % 5], formulation=pairs[(i * 2 + i // 5) % 5][0], solver=pairs[(i * 2 + i // 5) % 5][1],
-            aa=[0, 2][(i // 2) % 2], weighted=bool((i // 4) % 2), mseed=rng.randint(0, 10 ** 6),
+            aa=[0, 2][(i // 2) % 2], aa_restart=([None, 2, 3][(i // 4) % 3] if (i // 2) % 2 else None),
+            weighted=bool((i // 4) % 2), mseed=rng.randint(0, 10 ** 6),
             num_iter=[5, 4, 6, 3][i % 4], tol=[1e-14, float(np.finfo(float).max), 1e-3, 1e-6][(i // 3) % 4],
             tol_mode=["all", "distance", "residual", "increment"][(i // 2) % 4],
             # Newton: L is a cut-off of the mobility; Bregman: fixed penalty parameter (the Bregman operator is scaled by 1/L,
@@ -809,6 +860,16 @@ def configs(ctx):
         cfg["fault_at"] = sorted({0, 1, rng.randint(2, k - 1) if k > 2 else 1}) if not ctx.big else list(range(0, min(k, 6)))
         # program points: all of them in the thorough tier; in quick the inner solve always plus a rotating pair
         cfg["points"] = list(POINTS) if ctx.big else ["linearSolve"] + [POINTS[(2 * i) % len(POINTS)], POINTS[(2 * i + 1) % len(POINTS)]]
+        out.append(cfg)
+    # degenerate mobility (builder b's lead): quasi-1-D grid, cell-centre flux vanishing in one cell, cell-centre L1 mode,
+    # every back-end of the default formulation
+    for sv in ("direct", "amg", "cg"):
+        shape = [(8,), (1, 6, 1), (5, 1)][len(out) % 3]
+        cfg = Config(shape=list(shape), voxel=[0.75] * len(shape), masses="centre-zero", method="newton", l1="CONSTANT_CELL_PROJECTION",
+                     mobility="CELL_BASED", formulation="pressure", solver=sv, aa=0, aa_restart=None, weighted=False,
+                     mseed=rng.randint(0, 10 ** 6), num_iter=6, tol=1e-10, tol_mode="all", L=1e-2)
+        cfg["fault_at"] = [0, 2]
+        cfg["points"] = ["linearSolve"]
         out.append(cfg)
     return out
 
@@ -877,12 +938,22 @@ def aux_correspondence(ctx, d):
                 continue
             w._solve = lambda md, _x=x, _dd=stub_dist: (_dd, _x.copy(), {"converged": False, "number_iterations": 0, "convergence_history": {}})
             out = call(w, i1, i2)
+            # The integration rule of each L1 mode is part of the SPECIFICATION of the cost, not read back from the code where
+            # the mode itself fixes it: CONSTANT_SUBCELL_PROJECTION = mean over the 2^dim cell corners, CONSTANT_CELL_PROJECTION
+            # = value at the cell centre. RAVIART_THOMAS uses the Gauss rule of C15 (taken from the implementation; required
+            # to be a rule on the unit cell: nodes in [0,1]^dim, weights summing to 1).
             if l1 == "RAVIART_THOMAS":
                 pts, wq = d.quadrature.gauss_reference_cell(dim, "max")
+                pts = np.asarray(pts, dtype=float).reshape(len(wq), dim)
+                if abs(float(np.sum(wq)) - 1.0) > 8 * EPS * len(wq) or pts.min() < 0 or pts.max() > 1:
+                    ctx.fail(f"C04:transport_density:quadrature-rule-not-on-unit-cell:{l1}:dim={dim}",
+                             f"the quadrature rule behind L1Mode.{l1} in {dim}-D is not a rule on the unit cell (sum of weights "
+                             f"{float(np.sum(wq))!r})", {"kind": "aux", "cfg": dict(cfg), "x": []})
             elif l1 == "CONSTANT_SUBCELL_PROJECTION":
-                pts, wq = d.quadrature.reference_cell_corners(dim)
+                pts = np.array(list(np.ndindex(*([2] * dim))), dtype=float)
+                wq = np.full(2 ** dim, 0.5 ** dim)
             else:
-                pts, wq = d.quadrature.gauss_reference_cell(dim, 0)
+                pts, wq = np.full((1, dim), 0.5), np.array([1.0])
             pts = np.asarray(pts, dtype=float).reshape(len(wq), dim)
             cw = np.ravel(w.cell_weights, "F")
             line = (f"aux {dim} " + " ".join(map(str, shape)) + f" {dim} " + " ".join(fmt(v) for v in cfg.voxel) + f" {nc} " + " ".join(fmt(v) for v in cw)
@@ -989,6 +1060,30 @@ def anderson_correspondence(ctx, d):
                                                                 "calls": [[g.tolist(), f.tolist(), gm] for g, f, gm in calls]})
                 break
     ctx.correspond("AndersonAcceleration.__call__ (stubbed lstsq, dyadic) vs DarsiaModel.Anderson.call", lines, impl)
+    # property-level oracle with the REAL least-squares routine (anderson_run_preserves_balance): a linear constraint shared
+    # by all images must be kept by every returned iterate, for every depth / restart, over runs longer than the restart
+    for trial in range(ctx.pick(12, 60)):
+        depth = [1, 2, 3][trial % 3]
+        restart = [None, 2, 3, 4][(trial // 3) % 4]
+        dim = rng.randint(3, 8)
+        aa = call(d.AndersonAcceleration, dimension=None, depth=depth, restart=restart)
+        if isinstance(aa, Raised):
+            continue
+        a = np.array([rng.randint(1, 4) for _ in range(dim)], dtype=float)
+        hist = []
+        for k in range(rng.randint(5, 10)):
+            g = np.array([rng.gauss(0, 1) for _ in range(dim)])
+            g[-1] += (3.0 - float(a @ g)) / a[-1]
+            f = np.array([rng.gauss(0, 1) for _ in range(dim)])
+            hist.append((g.tolist(), f.tolist()))
+            o = call(aa, g.copy(), f.copy(), k)
+            ctx.count(("anderson-real", trial, k))
+            bad = isinstance(o, Raised) or not np.all(np.isfinite(o)) or abs(float(a @ np.asarray(o)) - 3.0) > 1e-7 * max(1.0, float(np.abs(o).max()))
+            if bad:
+                ctx.fail("C04:AndersonAcceleration.__call__:not-affine",
+                         f"Anderson mixing (depth {depth}, restart {restart}) does not keep a linear constraint a.x = 3 shared by all images: "
+                         f"call {k} returns {o!r}"[:400], {"kind": "anderson", "depth": depth, "restart": restart, "a": a.tolist(), "calls": hist})
+                break
 
 
 def model_selfchecks(ctx, codes):
